@@ -332,6 +332,8 @@ package stdlibspec
 //@ ghost heap sbc *strings.Builder string
 //@ spec func app1(s string, c byte) string
 //@ axiom app1-len: forall s string, c byte :: len(app1(s, c)) == len(s) + 1
+//@ axiom strOf-empty: forall a Arr[int,byte], off int :: strOf(a, off, 0) == ""
+//@ axiom strOf-snoc: forall a Arr[int,byte], off int, n int :: 0 <= n && n < 4611686018427387904 ==> app1(strOf(a, off, n), a[off + n]) == strOf(a, off, n + 1)
 //@ extern (*strings.Builder).WriteByte(b, c)
 //@   requires b != nil
 //@   assigns sbc[b]
@@ -557,3 +559,13 @@ package stdlibspec
 //@   ensures result1 == hasPfx(s, prefix)
 //@   ensures result1 ==> result0 == s[len(prefix):len(s)]
 //@   ensures !result1 ==> result0 == s
+
+// strings.Cut: split around the first occurrence of sep
+//@ spec func cutFound(s string, sep string) bool
+//@ spec func cutBefore(s string, sep string) string
+//@ spec func cutAfter(s string, sep string) string
+//@ extern strings.Cut(s, sep)
+//@   pure
+//@   ensures result2 == cutFound(s, sep) && result0 == cutBefore(s, sep) && result1 == cutAfter(s, sep)
+//@   ensures result2 ==> s == result0 + sep + result1
+//@   ensures !result2 ==> result0 == s && result1 == ""
